@@ -103,3 +103,11 @@ def nontrivial(c):
 
 TRUSTED = ["gfortran build of subroutine stog_bit extracted from /repo/fortran/stog_new3.f90 (third party to the comparison)",
            "400-point Gauss-Legendre quadrature of the linear-to-zero model as the independent reference for the added term"]
+
+
+LEAN_EXTRA = ["PystogVerif.Props.C15Fortran"]
+
+
+def correspond_extra(seed, tier):
+    import fortrancorr
+    return fortrancorr.run(seed, tier, lorch_only=None, tag="fortrancorr-c15")
